@@ -46,6 +46,21 @@ var library = []gen.ListSpec{
 	{Nodes: []string{"a", "b", "c"}, Edges: []gen.EdgeSpec{{From: "a", Type: tc, To: []string{"b", "c"}}, {From: "a", Type: td, To: []string{"b"}}}, Roots: []string{"a"}},
 	{Nodes: []string{"d"}},
 	{Nodes: []string{"a", "d"}, Edges: []gen.EdgeSpec{{From: "d", Type: tc, To: []string{"a"}}}, Roots: []string{"d", "a"}},
+	wideStar(false),
+}
+
+// wideStar: node a with 40 contained leaves (size class: thresholds and capacity effects are invisible to 3-node lists).
+func wideStar(reversed bool) gen.ListSpec {
+	var leaves []string
+	for i := 0; i < 40; i++ {
+		leaves = append(leaves, fmt.Sprintf("l%02d", i))
+	}
+	if reversed {
+		for i, j := 0, len(leaves)-1; i < j; i, j = i+1, j-1 {
+			leaves[i], leaves[j] = leaves[j], leaves[i]
+		}
+	}
+	return gen.ListSpec{Nodes: append([]string{"a", "b"}, leaves...), Edges: []gen.EdgeSpec{{From: "a", Type: tc, To: leaves}, {From: "b", Type: td, To: leaves[:3]}}, Roots: []string{"a"}}
 }
 
 type op struct {
@@ -81,7 +96,7 @@ func ops() []op {
 			}},
 		)
 	}
-	for _, i := range []int{1, 2, 4, 6, 7} {
+	for _, i := range []int{1, 2, 4, 6, 7, 8} {
 		for _, at := range []string{"a", "c", "x"} {
 			for _, ty := range []sbom.Edge_Type{tc, td} {
 				i, at, ty := i, at, ty
@@ -135,7 +150,7 @@ func ops() []op {
 			return cur, nil, false
 		}})
 	}
-	for _, id := range []string{"a", "d", "e"} {
+	for _, id := range []string{"a", "d", "e", "l05"} {
 		for _, at := range []string{"a", "b", "x"} {
 			for _, ty := range []sbom.Edge_Type{tc, td} {
 				id, at, ty := id, at, ty
@@ -208,6 +223,7 @@ func initials(thorough bool) []gen.ListSpec {
 			out = append(out, s)
 		}
 	})
+	out = append(out, wideStar(true))
 	return out
 }
 
